@@ -2647,10 +2647,6 @@ where
 ///
 /// Returns a [`DelaunayRepairError`] if the repair fails to converge or an underlying
 /// flip operation encounters an unrecoverable error.
-#[expect(
-    clippy::too_many_lines,
-    reason = "Repair retries and tracing are kept together for clarity"
-)]
 pub(crate) fn repair_delaunay_with_flips_k2_k3<K, U, V, const D: usize>(
     tds: &mut Tds<K::Scalar, U, V, D>,
     kernel: &K,
@@ -2688,13 +2684,41 @@ where
         use_robust_on_ambiguous: true,
         max_flips_override: None,
     };
-    // Snapshot the pre-repair state so a failed attempt doesn't poison retries.
+    // Snapshot the pre-repair state so a failed attempt doesn't poison retries, and so that
+    // an overall failure leaves the triangulation exactly as it was.
     let tds_snapshot = tds.clone();
 
+    let result = repair_delaunay_with_flips_k2_k3_attempts(
+        tds,
+        kernel,
+        seed_cells,
+        &tds_snapshot,
+        [&attempt1, &attempt2, &attempt3],
+    );
+    if result.is_err() {
+        *tds = tds_snapshot;
+    }
+    result
+}
+
+/// Attempt ladder of [`repair_delaunay_with_flips_k2_k3`]; the caller restores the snapshot on `Err`.
+fn repair_delaunay_with_flips_k2_k3_attempts<K, U, V, const D: usize>(
+    tds: &mut Tds<K::Scalar, U, V, D>,
+    kernel: &K,
+    seed_cells: Option<&[CellKey]>,
+    tds_snapshot: &Tds<K::Scalar, U, V, D>,
+    [attempt1, attempt2, attempt3]: [&RepairAttemptConfig; 3],
+) -> Result<DelaunayRepairStats, DelaunayRepairError>
+where
+    K: Kernel<D>,
+    K::Scalar: ScalarSummable,
+    U: DataType,
+    V: DataType,
+{
     let attempt1_result = if D == 2 {
-        repair_delaunay_with_flips_k2_attempt(tds, kernel, seed_cells, &attempt1)
+        repair_delaunay_with_flips_k2_attempt(tds, kernel, seed_cells, attempt1)
     } else {
-        repair_delaunay_with_flips_k2_k3_attempt(tds, kernel, seed_cells, &attempt1)
+        repair_delaunay_with_flips_k2_k3_attempt(tds, kernel, seed_cells, attempt1)
     };
 
     match attempt1_result {
@@ -2712,9 +2736,9 @@ where
             *tds = tds_snapshot.clone();
             let retry_seed_cells = None;
             let stats2 = if D == 2 {
-                repair_delaunay_with_flips_k2_attempt(tds, kernel, retry_seed_cells, &attempt2)
+                repair_delaunay_with_flips_k2_attempt(tds, kernel, retry_seed_cells, attempt2)
             } else {
-                repair_delaunay_with_flips_k2_k3_attempt(tds, kernel, retry_seed_cells, &attempt2)
+                repair_delaunay_with_flips_k2_k3_attempt(tds, kernel, retry_seed_cells, attempt2)
             };
 
             match stats2 {
@@ -2739,11 +2763,11 @@ where
             }
 
             // Final attempt with alternate queue order.
-            *tds = tds_snapshot;
+            *tds = tds_snapshot.clone();
             let stats3 = if D == 2 {
-                repair_delaunay_with_flips_k2_attempt(tds, kernel, retry_seed_cells, &attempt3)
+                repair_delaunay_with_flips_k2_attempt(tds, kernel, retry_seed_cells, attempt3)
             } else {
-                repair_delaunay_with_flips_k2_k3_attempt(tds, kernel, retry_seed_cells, &attempt3)
+                repair_delaunay_with_flips_k2_k3_attempt(tds, kernel, retry_seed_cells, attempt3)
             }?;
 
             verify_repair_postcondition(tds, kernel, retry_seed_cells)?;
@@ -2759,9 +2783,9 @@ where
             *tds = tds_snapshot.clone();
             let retry_seed_cells = None;
             let stats2 = if D == 2 {
-                repair_delaunay_with_flips_k2_attempt(tds, kernel, retry_seed_cells, &attempt2)
+                repair_delaunay_with_flips_k2_attempt(tds, kernel, retry_seed_cells, attempt2)
             } else {
-                repair_delaunay_with_flips_k2_k3_attempt(tds, kernel, retry_seed_cells, &attempt2)
+                repair_delaunay_with_flips_k2_k3_attempt(tds, kernel, retry_seed_cells, attempt2)
             };
 
             match stats2 {
@@ -2786,11 +2810,11 @@ where
             }
 
             // Final attempt with alternate queue order.
-            *tds = tds_snapshot;
+            *tds = tds_snapshot.clone();
             let stats3 = if D == 2 {
-                repair_delaunay_with_flips_k2_attempt(tds, kernel, retry_seed_cells, &attempt3)
+                repair_delaunay_with_flips_k2_attempt(tds, kernel, retry_seed_cells, attempt3)
             } else {
-                repair_delaunay_with_flips_k2_k3_attempt(tds, kernel, retry_seed_cells, &attempt3)
+                repair_delaunay_with_flips_k2_k3_attempt(tds, kernel, retry_seed_cells, attempt3)
             }?;
 
             verify_repair_postcondition(tds, kernel, retry_seed_cells)?;
